@@ -63,6 +63,8 @@ fn main() {
             }
         };
         writeln!(out, "{{\"line\":{},\"kind\":{},{}}}", lineno, json::string(&kind), body).unwrap();
+        // one line per finished case on disk: a case that never returns is then identifiable from outside
+        out.flush().unwrap();
     }
     out.flush().unwrap();
 }
